@@ -288,6 +288,84 @@ func c09(x *mon.Ctx) {
 	})
 	x.Require("message", nm, 0, nm)
 
+	// ---- a PARSED quote edited by its holder: one byte field given a new slice of other content, or rewritten in place, or the
+	//      RTMR list replaced — what is serialised is what the message now says (its serialisation equals that of a deep copy,
+	//      and parses back to it), wherever the bytes of the fields happen to live
+	{
+		vq := validQuotes(x, 2)
+		n := 0
+		for qi, valid := range vq[:2] {
+			probe, err := abi.QuoteToProto(append([]byte{}, valid...))
+			if err != nil {
+				x.Broken("c09: valid quote does not parse")
+				break
+			}
+			nf := len(byteFields(probe.(*pb.QuoteV4)))
+			for fi := 0; fi < nf; fi++ {
+				for _, how := range []string{"replaced-by-a-new-slice", "rewritten-in-place", "replaced-by-a-slice-of-the-input", "replaced-by-a-window-of-a-big-buffer"} {
+					in := append([]byte{}, valid...)
+					a, _ := abi.QuoteToProto(in)
+					m := a.(*pb.QuoteV4)
+					f := byteFields(m)[fi]
+					if f.Len() == 0 {
+						continue
+					}
+					nv := make([]byte, f.Len())
+					posFill(nv, 7+fi)
+					switch how {
+					case "replaced-by-a-new-slice":
+						f.SetBytes(nv)
+					case "rewritten-in-place":
+						copy(f.Bytes(), nv)
+					case "replaced-by-a-slice-of-the-input":
+						k := min(f.Len(), len(in))
+						copy(in[:k], nv[:k])
+						if k < f.Len() {
+							continue
+						}
+						f.SetBytes(in[:k:k])
+					default:
+						big := make([]byte, 3*f.Len()+100)
+						posFill(big, 99)
+						copy(big[50:], nv)
+						f.SetBytes(big[50 : 50+f.Len()])
+					}
+					param := fmt.Sprintf("quote%d/field%d/%s", qi, fi, how)
+					want := proto.Clone(m).(*pb.QuoteV4)
+					var ser, serWant []byte
+					var e1, e2 error
+					pv, st := mon.Guard(func() {
+						ser, e1 = abi.QuoteToAbiBytes(m)
+						serWant, e2 = abi.QuoteToAbiBytes(want)
+					})
+					prob := ""
+					switch {
+					case pv != "":
+						prob = "serialising panics: " + pv + "\n" + st
+					case (e1 == nil) != (e2 == nil):
+						prob = fmt.Sprintf("the edited message serialises with err=%v, a deep copy of it with err=%v", e1, e2)
+					case e1 != nil:
+					case !bytes.Equal(ser, serWant):
+						prob = fmt.Sprintf("the serialisation of the edited message differs from the serialisation of a deep copy of it (first at byte %d): it is not what the message says", firstByteDiff(ser, serWant))
+					case !proto.Equal(m, want):
+						prob = "serialising changed the message: " + firstDiff(m, want)
+					default:
+						if back, perr := abi.QuoteToProto(ser); perr == nil && !proto.Equal(back.(*pb.QuoteV4), want) {
+							prob = "the edited message does not survive serialise-then-parse: " + firstDiff(back.(*pb.QuoteV4), want)
+						}
+					}
+					if prob != "" {
+						wire, _ := proto.Marshal(want)
+						x.Violation("parsed-message-edited", param, prob, "none", map[string]any{"edit": param, "wire": wire})
+					}
+					x.Note("parsed-message-edited", param, e1 == nil, pv != "", prob == "")
+					n++
+				}
+			}
+		}
+		x.Require("parsed-message-edited", n*3/4, 0, n)
+	}
+
 	// ---- messages that are NOT well-formed (every structural mutation of a valid message: a sub-message absent, a field or a
 	//      list entry of another length, another number of entries — also lengths that compensate each other within a list):
 	//      parser and serialiser share one validity predicate, so bytes the serialiser produced that the parser accepts parse
@@ -326,6 +404,39 @@ func c09(x *mon.Ctx) {
 		})
 		x.Require("malformed-message", 0, 100, 100)
 	}
+}
+
+// byteFields lists the byte-string fields of a message (list entries included) in declaration order.
+func byteFields(m *pb.QuoteV4) []reflect.Value {
+	var fields []reflect.Value
+	var walk func(v reflect.Value)
+	walk = func(v reflect.Value) {
+		switch v.Kind() {
+		case reflect.Ptr:
+			if !v.IsNil() {
+				walk(v.Elem())
+			}
+		case reflect.Struct:
+			t := v.Type()
+			for i := 0; i < v.NumField(); i++ {
+				if t.Field(i).PkgPath == "" {
+					walk(v.Field(i))
+				}
+			}
+		case reflect.Slice:
+			if v.Type().Elem().Kind() == reflect.Uint8 {
+				if !v.IsNil() {
+					fields = append(fields, v)
+				}
+				return
+			}
+			for i := 0; i < v.Len(); i++ {
+				walk(v.Index(i))
+			}
+		}
+	}
+	walk(reflect.ValueOf(m))
+	return fields
 }
 
 // rehome moves every byte field of the message into ONE buffer, as consecutive windows (in field order or
